@@ -194,7 +194,10 @@ func ParseNumber(src string) (NumLit, Verdict) {
 	case reDec.MatchString(src):
 		v, err := strconv.ParseUint(src, 10, 64)
 		if err != nil {
-			return NumLit{}, Unpinned // a decimal integer above 2^64-1: neither the specification nor a repository test decides
+			// a decimal integer above 2^64-1 is read as a floating-point literal ("if it's too big to be an int, parse it as a
+			// float", parser/lexer.go; protoc's ConsumeNumber does the same), which overflows to infinity like any other
+			f, _ := strconv.ParseFloat(src, 64)
+			return NumLit{Float: f}, Accept
 		}
 		return NumLit{IsInt: true, Int: v, Float: float64(v)}, Accept
 	case reFloat.MatchString(src):
